@@ -35,4 +35,9 @@ CHECKS = {
     design_ref='DESIGN.md section 2, C17',
     note='Process transport (amsg/worker_proc) and the compiler are replaced in-process; multitenant_worker.py is not driven. Requests are sequential.',
     technique='stateful property-based testing: differential on worker-side arguments and belief-vs-truth invariant over generated request/fault histories'),
+ 'C19': dict(
+    text='Histories (<=25 ops) of SET / RESET / object INSERT (+=) / filtered RESET (-=) at session, branch and instance scope over 25 settings of the real spec covering every kind (bool, int, str, enum-like str, enums, duration, memory, multi-valued, object-valued with exclusive fields and subtypes), with valid and ill-typed values, injected both as Operation objects and through CONFIGURE text compiled by the server compiler. A three-dict reference model predicts config.lookup for every setting after every step; rejected operations must change nothing; at the end from_json(to_json(m)) == m and to_edgeql(m) re-compiled and re-applied gives the same effective values. Plus exhaustive unit x magnitude grids for Duration / ConfigMemory printing and parsing.',
+    design_ref='DESIGN.md section 2, C19',
+    note='Range constraints are enforced by PostgreSQL at execution time and are out of reach; object INSERT / filtered RESET yield no static operations and are injected as ADD/REM operations, as the server does with the backend reply.',
+    technique='stateful property-based testing against a three-scope reference model, plus JSON / CONFIGURE-text round trips and exhaustive scalar grids'),
 }
